@@ -1,5 +1,5 @@
 (* C17 — The bridge listens exactly while running and leaves nothing behind *)
-Require Import AS.Base.Prelude AS.Model.Lifecycle AS.Proofs.LifecycleProofs.
+Require Import AS.Base.Prelude AS.Model.Lifecycle AS.Proofs.LifecycleProofs AS.Model.MultiBridge AS.Proofs.MultiBridgeProofs.
 
 (* for all action sequences and all port lists *)
 Theorem C17_lifecycle ports acts : let s := run false ports acts in
@@ -9,3 +9,27 @@ Theorem C17_lifecycle ports acts : let s := run false ports acts in
 Proof. exact (C17_model ports acts). Qed.
 Print Assumptions C17_lifecycle.
 
+
+(* any number of bridge objects in one process, each with its own port list [cfg i] (Model/MultiBridge.v), after any history of
+   start / stop of any object and foreign sockets coming and going: every object is running exactly while it holds all of its ports,
+   holds none otherwise, and receives a broadcast exactly when it is running on that port *)
+Theorem C17_every_object cfg acts i : let s := mrun cfg acts in
+  (rflag s i = true -> forall p, In p (cfg i) -> held s i p) /\
+  (rflag s i = false -> forall p, ~ held s i p) /\
+  (forall p, delivered_to s p i = true <-> (rflag s i = true /\ In p (cfg i))).
+Proof. exact (C17_objects cfg acts i). Qed.
+Print Assumptions C17_every_object.
+
+(* what is done with other objects (start, failed start, stop, repeated stop) or by foreign sockets leaves an object as it was *)
+Theorem C17_objects_are_independent cfg acts a i : ~ names a i ->
+  let s := mrun cfg acts in
+  rflag (mstep cfg s a) i = rflag s i /\ forall q, held (mstep cfg s a) i q <-> held s i q.
+Proof. exact (C17_objects_do_not_interfere cfg acts a i). Qed.
+Print Assumptions C17_objects_are_independent.
+
+(* the premises are met by real histories: object 0 running on ports 1 and 2 while object 1 (same ports) is stopped twice and
+   object 2 fails to start on port 2 *)
+Example C17_objects_example :
+  let s := mrun (fun _ => [1; 2]%nat) [MStart 0; MStop 1; MStart 2; MStop 1] in
+  rflag s 0 = true /\ rflag s 2 = false /\ m_os s 1%nat = MBridge 0 /\ m_os s 2%nat = MBridge 0.
+Proof. vm_compute. repeat split. Qed.
